@@ -198,6 +198,21 @@ CHECKS = {
         "Polyline -> Circle (different transcendental closed forms / limits), and the mesh converters (np.unique / ConvexHull).",
         design="3/C13",
     ),
+    "C01": dict(
+        engine="E2",
+        technique="symbolic execution of the real Dipole / Sphere / Polyline / on-axis Circle kernels and of the Cuboid fold (quadrant sign tables) "
+        "over z3 terms; each compared with an independently written closed form or with the mirror covariance of a pseudo-vector field as an "
+        "SMT obligation per feasible path",
+        text="Bounded symbolic model checking of the algebraically decidable anchors of C01, for all real inputs: Dipole == point-dipole "
+        "formula, Sphere == 2/3 J inside / dipole outside, on-axis Circle == textbook formula, on-line Polyline points == 0, Cuboid B is "
+        "mirror-covariant under the x, y, z reflections on every feasible fold path (decides every entry of the sign tables). The straight "
+        "segment vs. the cross-product Biot-Savart form is attempted for six rational segments: proved on some paths, `unknown` on the others "
+        "(listed); a wrong kernel is still found there by the concrete screening of candidate models and replay.",
+        note="PARTLY APPLICABLE: the transcendental closed forms (Cuboid, Cylinder, CylinderSegment, Triangle family, off-axis Circle) vs. the "
+        "defining integrals are NOT decided - no SMT theory for them; numerical accuracy in doubles is not decided; observers at relative "
+        "distance >= 1e-3 from the wire for the segment obligation.",
+        design="3/C01",
+    ),
 }
 
 NOT_APPLICABLE = {
